@@ -11,7 +11,11 @@ LEVEL = "proof"
 RULE = ("segment tables of 1..6 chromosomes x 1..30 segments (runs of equal level of random length, gaps between "
         "segments, zero weights, optional allele-specific cn1/cn2, ci/sem straddling 0) through segfilters.cn/ci/sem/"
         "ampdel directly and through do_call(method=threshold, filters=<every ordered list of distinct filters with at "
-        "most one of ci/sem>); non-trivial = some run of >= 2 mergeable neighbours exists; distinct by hash")
+        "most one of ci/sem>); about 11 % of the cases go through the command line instead (`cnvkit.py call` on a written .cns "
+        "carrying ci_lo/ci_hi/sem: every such filter list as repeated --filter in order, -m threshold explicit or left to "
+        "the parser's default, -t= custom thresholds of 3..8 levels or the default, --ploidy given or default, -y on/off; "
+        "-m none with --filter ci|sem; -m clonal and -v VCF with --filter cn|ampdel, the un-filtered calls entering the "
+        "model as parameters); non-trivial = some run of >= 2 mergeable neighbours exists; distinct by hash")
 EXHAUSTIVE = {"quick": False, "thorough": False}
 ASSUMPTIONS = ["rows grouped by chromosome (sorted table) with the default unique index, as the call path guarantees",
                "the weighted median of unequal cn values inside an ampdel run is C19's subject; only its range is checked here"]
@@ -104,7 +108,57 @@ def gen_cases(rng, tier):
             cases.append({"op": "call_filters", "tag": "call:" + "+".join(fl),
                           "in": {"rows": rows, "filters": fl, "thr": [frac(t) for t in DEFAULT_THR],
                                  "thr_f": list(DEFAULT_THR), "ploidy": rng.choice([2, 2, 3, 4]), "hapX": rng.random() < 0.5}})
+    # the same pipelines through the command line (`cnvkit.py call ... --filter F ...`), appended so that the cases
+    # above keep their random stream
+    mc = {"quick": 4, "thorough": 40, "search": 4}[tier]
+    for fl in lists:
+        for _ in range(mc):
+            cases.append(_cli_case(rng, "call_filters", fl, None))
+    me = {"quick": 12, "thorough": 80, "search": 12}[tier]
+    for kind, f in (("none", "ci"), ("none", "sem"), ("clonal", "cn"), ("clonal", "ampdel"), ("vcf", "cn")):
+        for _ in range(me):
+            cases.append(_cli_case(rng, "segfilter", [f], kind))
     return cases
+
+
+def _cli_case(rng, op, fl, kind):
+    """a case that reaches the filters through `cnvkit.py call`.  op = call_filters: -m threshold, the whole pipeline
+    is the model's.  op = segfilter: one filter after `-m none` (no calls at all), `-m clonal` or `-v VCF` (the
+    un-filtered calls, C01/C02/C18's subject, enter the model as the table's cn/cn1/cn2 columns)."""
+    rows, _h = _table(rng, small=rng.random() < 0.5)
+    rows = [r[:7] + [None, None, None] + r[10:] for r in rows]
+    # columns written to the .cns: those the filters need, sometimes the others too
+    need = [c for f, cs in (("ci", ["ci_lo", "ci_hi"]), ("sem", ["sem"])) if f in fl for c in cs]
+    cols = [c for c in ("ci_lo", "ci_hi", "sem") if c in need or rng.random() < 0.5]
+    opt_t = rng.random() < 0.6
+    if opt_t:
+        # 3..8 levels, the last one above every log2 of the table (the model never consults the ratio 2^log2); the
+        # half-hundredths keep them off the two-decimal log2 values of the table (knife-edge rule)
+        k = rng.randint(3, 8)
+        thr = sorted(rng.choice([round(rng.uniform(-3, 0.6), 2) + 0.005, rng.uniform(-2.5, 0.65)]) for _ in range(k - 1))
+        thr.append(rng.choice([0.7, 0.75, 1.0, rng.uniform(0.7, 2)]))
+    else:
+        thr = list(DEFAULT_THR)
+    opt_ploidy = rng.random() < 0.6
+    ploidy = rng.choice([1, 2, 3, 4, 6]) if opt_ploidy else 2
+    i = {"rows": rows, "cols": cols, "thr": [frac(t) for t in thr], "thr_f": thr, "opt_t": opt_t, "ploidy": ploidy,
+         "opt_ploidy": opt_ploidy, "hapX": rng.random() < 0.5, "cli": True}
+    if op == "call_filters":
+        i.update(filters=list(fl), method=rng.choice(["threshold", None]))  # None: left to the parser's default
+        tag = "cli-call:" + "+".join(fl)
+    else:
+        i.update(filter=fl[0], has_cn1=False, method={"none": "none", "clonal": "clonal", "vcf": rng.choice(["threshold", None])}[kind])
+        if kind == "vcf":
+            # heterozygous SNPs [chromosome, position, ref depth, alt depth] inside some of the segments
+            snps = []
+            for r in rows:
+                for _ in range(rng.choice([0, 1, 1, 2, 3])):
+                    dp = rng.randint(20, 120)
+                    alt = rng.choice([dp // 2, rng.randint(1, dp - 1), rng.randint(dp // 3, 2 * dp // 3)])
+                    snps.append([r[0], rng.randint(r[1], r[2] - 1), dp - alt, alt])
+            i["snps"] = snps
+        tag = "cli-" + kind + ":" + fl[0]
+    return {"op": op, "tag": tag, "in": i}
 
 
 def _cna(rows, cols_extra):
@@ -144,6 +198,8 @@ def _rows_out(arr):
 def run_impl(case):
     from cnvlib import segfilters, call
     i = case["in"]
+    if i.get("cli"):
+        return _run_cli(case["op"], i)
     if case["op"] == "segfilter":
         extra = {"cn": ["cn"], "ampdel": ["cn"], "ci": ["cn", "ci_lo", "ci_hi"], "sem": ["cn", "sem"]}[i["filter"]]
         if i["has_cn1"]:
@@ -158,9 +214,121 @@ def run_impl(case):
     raise ValueError(case["op"])
 
 
+def _vcf_text(contigs, snps):
+    lines = ["##fileformat=VCFv4.2"] + [f"##contig=<ID={c},length=300000000>" for c in contigs]
+    lines += ['##FORMAT=<ID=GT,Number=1,Type=String,Description="genotype">',
+              '##FORMAT=<ID=AD,Number=R,Type=Integer,Description="allelic depths">',
+              '##FORMAT=<ID=DP,Number=1,Type=Integer,Description="depth">',
+              "#CHROM\tPOS\tID\tREF\tALT\tQUAL\tFILTER\tINFO\tFORMAT\tS"]
+    for c, p, nref, nalt in sorted(snps, key=lambda x: (contigs.index(x[0]), x[1])):
+        lines.append(f"{c}\t{p + 1}\t.\tA\tG\t50\tPASS\t.\tGT:AD:DP\t0/1:{nref},{nalt}:{nref + nalt}")
+    return "\n".join(lines) + "\n"
+
+
+def _run_cli(op, i):
+    """the same computation through the command line: write the .cns (and the VCF), run `cnvkit.py call`, take the
+    table the command hands to the writer.  Returns the input table as the command read it back (sorted, values as
+    parsed from the 6-digit text: the model is fed these) together with the output rows."""
+    import logging
+    import os
+    import shutil
+    import tempfile
+    from cnvlib import call, commands
+    from cnvlib.cmdutil import read_cna, load_het_snps
+    from skgenome import tabio
+    d = tempfile.mkdtemp(dir="/var/tmp", prefix="c14cli")
+    try:
+        fin, fout, fvcf = (os.path.join(d, n) for n in ("S.cns", "S.call.cns", "S.vcf"))
+        tabio.write(_cna(i["rows"], list(i["cols"])), fin)
+        filters = list(i["filters"]) if op == "call_filters" else [i["filter"]]
+        argv = ["call", fin, "-o", fout]
+        for f in filters:
+            argv += ["--filter", f]
+        if i["method"] is not None:
+            argv += ["-m", i["method"]]
+        if i["opt_t"]:
+            argv.append("-t=" + ",".join(repr(t) for t in i["thr_f"]))
+        if i["opt_ploidy"]:
+            argv += ["--ploidy", str(i["ploidy"])]
+        if i["hapX"]:
+            argv.append("-y")
+        if i.get("snps") is not None:
+            contigs = []
+            for r in i["rows"]:
+                if r[0] not in contigs:
+                    contigs.append(r[0])
+            with open(fvcf, "w") as fh:
+                fh.write(_vcf_text(contigs, i["snps"]))
+            argv += ["-v", fvcf]
+        # the .call.cns is written with 6 significant digits (C08's subject): take the table the command hands to the
+        # writer, and check separately that the file read back agrees with it to that precision
+        captured = []
+
+        class _Tab:
+            def __getattr__(self, name):
+                return getattr(tabio, name)
+
+            def write(self, garr, outfname=None, *a, **k):
+                captured.append((garr, outfname))
+                return tabio.write(garr, outfname, *a, **k)
+        saved = commands.tabio
+        commands.tabio = _Tab()
+        level = logging.root.manager.disable
+        logging.disable(logging.CRITICAL)
+        try:
+            args = commands.parse_args(argv)
+            args.func(args)
+        finally:
+            logging.disable(level)
+            commands.tabio = saved
+        if len(captured) != 1 or captured[0][1] != fout or not os.path.exists(fout):
+            raise AssertionError("cnvkit.py call did not write exactly one table to the requested output")
+        out = captured[0][0]
+        if (i["method"] == "none") != ("cn" not in out.data.columns):
+            raise AssertionError("the cn column is present exactly when a calling method is")
+        rows_out = _rows_out(out)
+        if len(out):
+            back = _rows_out(read_cna(fout))
+            if len(back) != len(rows_out) or any(
+                    a[:4] != b[:4] or a[5] != b[5] or a[7:10] != b[7:10] or
+                    any(abs(Fraction(a[k]) - Fraction(b[k])) > Fraction(1, 10 ** 5) * max(1, abs(Fraction(b[k]))) for k in (4, 6))
+                    for a, b in zip(back, rows_out)):
+                raise AssertionError("the written .call.cns does not read back as the table call computed")
+        # the input as the command saw it
+        seen = read_cna(fin)
+        param = None
+        if op == "segfilter" and i["method"] != "none":
+            # the un-filtered calls (C01/C02; the VCF's b-allele frequencies: C18) through the API, as parameters
+            varr = load_het_snps(fvcf, None, None, 20, None) if i.get("snps") is not None else None
+            param = call.do_call(seen, varr, i["method"] or "threshold", i["ploidy"], None, i["hapX"], None, None, None,
+                                 tuple(i["thr_f"])).data
+        sd = seen.data
+        cli_rows = []
+        for k in range(len(sd)):
+            def col(df, name, conv):
+                if df is None or name not in df.columns:
+                    return None
+                v = df[name].iat[k]
+                return None if v != v else conv(v)
+            f = lambda v: frac(float(v))
+            cli_rows.append([str(sd["chromosome"].iat[k]), int(sd["start"].iat[k]), int(sd["end"].iat[k]), str(sd["gene"].iat[k]),
+                             f(sd["log2"].iat[k]), int(sd["probes"].iat[k]), f(sd["weight"].iat[k]),
+                             col(param, "cn", f), col(param, "cn1", f), col(param, "cn2", f),
+                             col(sd, "ci_lo", f), col(sd, "ci_hi", f), col(sd, "sem", f)])
+        return {"cli_rows": cli_rows, "has_cn1": param is not None and "cn1" in param.columns, "out": rows_out}
+    finally:
+        shutil.rmtree(d, ignore_errors=True)
+
+
 def to_line(case, impl):
     line = {"op": case["op"], "in": {k: v for k, v in case["in"].items() if not k.endswith("_f")}}
-    if not (isinstance(impl, dict) and "__error__" in impl):
+    if isinstance(impl, dict) and "cli_rows" in impl:
+        # command-line case: the table as `cnvkit.py call` read it from the file
+        line["in"]["rows"] = impl["cli_rows"]
+        if case["op"] == "segfilter":
+            line["in"]["has_cn1"] = impl["has_cn1"]
+        line["impl"] = impl["out"]
+    elif not (isinstance(impl, dict) and "__error__" in impl):
         line["impl"] = impl
     return line
 
@@ -179,6 +347,8 @@ def judge(case, impl, resp):
         return [], ["model error: " + resp["error"]], None
     spec = list(resp.get("spec") or [])
     out = resp["out"]
+    if isinstance(impl, dict) and "cli_rows" in impl:
+        impl = impl["out"]
     if "slack" in resp and Fraction(resp["slack"]) < Fraction(1, 10 ** 9):
         return [], [], "a level comparison (threshold / log2 +- 1.96 sem) within 1e-9 of its boundary"
     dis = []
@@ -197,6 +367,8 @@ def judge(case, impl, resp):
 
 
 def nontrivial(case, impl, resp):
+    if isinstance(impl, dict) and "cli_rows" in impl:
+        return len(impl["out"]) < len(impl["cli_rows"])
     return not isinstance(impl, dict) and len(impl) < len(case["in"]["rows"])
 
 
